@@ -434,6 +434,20 @@ class C08Mon(Monitor):
         V(m.get_n_buy_order() == self.nb.get(t, 0) and m.get_n_sell_order() == self.ns.get(t, 0), "C08.order_counts",
           "buy/sell order counts of the step != acceptances", "got %s/%s expected %s/%s" % (
               m.get_n_buy_order(), m.get_n_sell_order(), self.nb.get(t, 0), self.ns.get(t, 0)))
+        if t >= 2 and sub.kind in ("tick", "round"):
+            # the per-step series read for arbitrary selections of steps (sparse, newest first, repeated, strided, all)
+            for times in ([0, t], [t, 0], [t - 1, t - 1], range(0, t + 1, 2), None):
+                ts = list(range(0, t + 1)) if times is None else list(times)
+                for getter, exp in ((m.get_executed_volumes, [self.vol.get(s_, 0) for s_ in ts]),
+                                    (m.get_n_buy_orders, [self.nb.get(s_, 0) for s_ in ts]),
+                                    (m.get_n_sell_orders, [self.ns.get(s_, 0) for s_ in ts])):
+                    got = getter(times) if times is not None else getter()
+                    V(list(got) == exp, "C08.series_selection", "a per-step series read for a selection of steps does not give those steps' values",
+                      "%s(%s) = %s expected %s" % (getter.__name__, "all" if times is None else ts, list(got), exp))
+                got = m.get_executed_total_prices(times) if times is not None else m.get_executed_total_prices()
+                V(len(got) == len(ts) and all(feq(g_, self.tot.get(s_, 0.0)) for g_, s_ in zip(got, ts)), "C08.series_selection",
+                  "a per-step series read for a selection of steps does not give those steps' values", "turnover for steps %s" % ts)
+            w.wit.inc("series_read_for_step_selections")
         vw = m.get_vwap()
         if self.cumvol == 0:
             V(isinstance(vw, float) and math.isnan(vw), "C08.vwap", "VWAP defined before any fill")
